@@ -21,7 +21,9 @@ mod disk;
 mod enumerate;
 mod handtable;
 mod model;
+mod modnames;
 mod reference;
+mod typos;
 
 use enumerate::{Unit, unit_table};
 use model::*;
@@ -809,7 +811,9 @@ struct C13;
 fn env_of(u: &Unit) -> Env {
     match u {
         Unit::Lookup { tree, placement } => Env::new(*tree, *placement, true),
-        Unit::Probes { tree, placement, .. } => Env::new(*tree, *placement, false),
+        Unit::Probes { tree, placement, .. } | Unit::TypePos { tree, placement, .. } | Unit::ModNames { tree, placement } => {
+            Env::new(*tree, *placement, false)
+        }
     }
 }
 
@@ -826,6 +830,8 @@ impl Check for C13 {
         match u {
             Unit::Lookup { .. } => run_lookup(&env, cx),
             Unit::Probes { site, kind, group, impkind, .. } => run_probes(&env, site, kind, group, impkind, cx),
+            Unit::ModNames { .. } => modnames::run(&env, cx),
+            Unit::TypePos { site, .. } => typos::run(&env, site, cx),
         }
     }
     fn describe(&self, cfg: &Cfg, unit: usize, sub: u64) -> Value {
@@ -845,6 +851,8 @@ impl Check for C13 {
                 let name = names.get(ci).map(|n| n.0.as_str()).unwrap_or("(compile)");
                 lookup_case(&env, if o == 0 { "memory" } else { "disk" }, layout, name, &src)
             }
+            Unit::ModNames { .. } => modnames::describe(&env, sub),
+            Unit::TypePos { site, .. } => typos::describe(&env, site, sub),
             Unit::Probes { site, kind, group, impkind, .. } => {
                 let progs = enumerate::probes(&env.world, site, kind, group, impkind, cfg.tier);
                 if sub & BATCH_BIT != 0 {
@@ -875,6 +883,56 @@ impl Check for C13 {
     }
     fn matches(&self, f: &Finding, v: &Violation) -> bool {
         let c = &v.case;
+        if c["what"] == "module-name" {
+            let o = &v.observed;
+            return match f.matcher.as_str() {
+                // A file / directory / FileSpec module_name that is no
+                // identifier (or a keyword, or `pkg` for a child, or not `pkg`
+                // for the root) becomes a module all the same. Exactly three
+                // symptoms: functions reachable through the invalid name; the
+                // code generator's DuplicateDefinition panic when the dotted
+                // name equals the path of a real module holding the same
+                // function; every retrieval failing under a root not called pkg.
+                "module_name_not_validated" => match c["kind"].as_str() {
+                    Some("invalid-name") => {
+                        (v.class == "mismatch" && o["reachable_through_the_extra_name"] == true)
+                            || (v.class == "panic"
+                                && c["collides_with_real_module_path"] == true
+                                && o["panic"].as_str().is_some_and(|m| m.contains("DuplicateDefinition")))
+                    }
+                    Some("root-not-pkg") => v.class == "mismatch" && o["every_existing_function_fails"] == true,
+                    _ => false,
+                },
+                // `pkg.roto` in a sub-directory / `mod.roto` next to the root
+                // `pkg.roto` vanish: the tree compiles and nothing of the file
+                // is reachable.
+                "pkg_or_mod_file_dropped" => {
+                    matches!(c["kind"].as_str(), Some("subdir-pkg-file") | Some("root-mod-file"))
+                        && v.class == "mismatch"
+                        && o["extra_file_dropped"] == true
+                        && o["base_lookups_wrong"].as_array().is_some_and(|a| a.is_empty())
+                }
+                _ => false,
+            };
+        }
+        if c["what"] == "type-position" {
+            let d = &c["detail"];
+            return match f.matcher.as_str() {
+                // return type resolved in the scope that already holds the
+                // parameters: a parameter named like the first segment of the
+                // return type makes a well-formed signature fail to compile
+                // (the same name in a parameter type is fine)
+                "return_type_in_parameter_scope" => {
+                    v.class == "mismatch"
+                        && c["family"] == "signature"
+                        && d["position"] == "return"
+                        && d["param_is_first_segment"] == true
+                        && v.expected["ok"].is_u64()
+                        && v.observed == "compile error"
+                }
+                _ => false,
+            };
+        }
         if v.class != "mismatch" || c["what"] != "reference" {
             return false;
         }
@@ -907,7 +965,7 @@ impl Check for C13 {
     fn meta(&self, cfg: &Cfg) -> Meta {
         let nt = enumerate::n_trees(cfg.tier);
         Meta {
-            rule: "a state is one probe program (tree x placement x site module x use kind x nesting x reference form x import kind x import placement x shadow x record variant) or one get_function lookup (tree x placement x origin/layout x path); each is executed in memory and on disk and compared with the reference resolver. A probe is non-trivial if the package holds at least two candidates for the name (copies of the item in different modules and/or a local of that name) when a tag is expected, or at least one copy when an error is expected (so a wrong reach would be observable); a lookup is non-trivial if its module path exists".into(),
+            rule: "also: type paths in generic declarations and function signatures under a same-named type parameter / parameter (typos.rs; non-trivial when the parameter carries the first segment's name or a tag is expected) and one extra invalid / pkg / mod module name per tree on disk and in memory (modnames.rs). Otherwise: a state is one probe program (tree x placement x site module x use kind x nesting x reference form x import kind x import placement x shadow x record variant) or one get_function lookup (tree x placement x origin/layout x path); each is executed in memory and on disk and compared with the reference resolver. A probe is non-trivial if the package holds at least two candidates for the name (copies of the item in different modules and/or a local of that name) when a tag is expected, or at least one copy when an error is expected (so a wrong reach would be observable); a lookup is non-trivial if its module path exists".into(),
             assumptions: vec![
                 "items f/K/R, module names a/b/c/d: other identifiers follow the same code path".into(),
                 "locals named pkg/super are not generated (documentation: special identifiers); parameter-vs-import in the function body block, cyclic imports and two imports of one name in one scope are counted as unspecified".into(),
@@ -923,6 +981,8 @@ impl Check for C13 {
                 "import_path_forms": enumerate::PFORMS[..enumerate::n_pforms(cfg.tier)].iter().map(|p| p.join(".")).collect::<Vec<_>>(),
                 "import_kinds": ["single", "list", "module-then-path", "chain", "chain-reversed", "chain-of-3-reversed"],
                 "import_placements": ["top-before", "top-after", "block-before", "block-after", "outer-before", "outer-after", "sibling-arm", "parent-module-top (use unchanged)", "parent-module-top (use via super.)", "parent-module-top (use via pkg...)"],
+                "type_positions": "record S[P] / enum E[P] field types: P in {T, first segment, R} x 21 paths x {number, marker of every copy of R}; fn signatures: parameter named {n, first segment, R} before a parameter type / the return type x 16 paths x every copy of R",
+                "module_name_cases": "next to pkg and next to pkg.a: x.y of every real module x.y, p.q, my-mod, fn, super, 1, .hidden, ' x ' as file and FileSpec child; my-mod/, x.roto/, pkg/, super/ as directories; child named pkg in memory; a/pkg.roto; mod.roto at the root; controls z9.roto, z9/, mod/; root named main in memory",
                 "import_forms_with_shadows": enumerate::FULL_PFORMS,
                 "import_groups_per_kind": "call, const: the forms with shadows; the remaining (lite) forms without shadows for call (quick: call and const); record uses: no-import group only",
                 "import_shadows": enumerate::import_shadows(cfg.tier, 1, Kind::Const).iter().map(|s| format!("{s:?}")).collect::<Vec<_>>(),
